@@ -969,6 +969,19 @@ def check_opes(run, exe, model, cases, scratch):
             if t > 0 and t % c["pace"] == 0:
                 nk = len(dumps[0]["kernels"])
                 hrounds.append([k[0] for k in dumps[0]["kernels"][nk - c["n"]:]])
+                # oracle on the implementation alone: the sum of weights is the initial value plus the weight of every
+                # kernel of every walker, each once (weights = kernel heights: fixedGaussianSigma, compression off)
+                sw = float.fromhex(base["sumw"])
+                for r_ in hrounds:
+                    acc = float.fromhex(r_[0])
+                    for h_ in r_[1:]:
+                        acc += float.fromhex(h_)
+                    sw += acc
+                if not close(sw, float.fromhex(dumps[0]["sumw"]), False):
+                    run.violation("opes:sum-of-weights-not-the-contributions", "at step %d the walkers' sum of weights is %r; the initial value plus the "
+                                  "weights of all kernels of all walkers is %r (rounds %s)" % (t, float.fromhex(dumps[0]["sumw"]), sw, hrounds),
+                                  {"kind": "opes", "case": c, "step": t})
+                    break
                 rc, mo2, err = V.run_lines(model, ["OPESSUM %s %s %d %s %s" % (base["sumw"], base["sumw2"], base["counter"], base["kbt"],
                                                    ";".join(",".join(r_) for r_ in hrounds))], timeout=60)
                 if rc != 0 or len(mo2) != 1:
